@@ -3,3 +3,5 @@ import DDProps.C02
 import DDProps.C01
 import DDProps.C10
 import DDProps.C18
+import DDProps.C17
+import DDProps.C14
